@@ -44,6 +44,15 @@ example : isFirewalled
     (wrapped [[Gen.ircCallbackFirewalled, [("isCommand", false), ("_callCommand", false)]]] []
       ["outFilter", "myCommand"]) "outFilter" = true := by decide
 
+/-- **Every hook of every bundled plugin is firewalled** (the c24111e bug class as an obligation over
+the extracted inventory): for each plugin class of `plugins/*/plugin.py` that overrides `__call__`,
+`inFilter`, `outFilter`, `die`, `reset`, `callPrecedence`, `name`, … the metaclass — given the
+ancestry `IrcCallback.__firewalled__`, `Commands.__firewalled__` — wraps every one of them. -/
+theorem all_plugin_hooks_firewalled :
+    Gen.pluginHookDefs.all (fun row => row.2.2.all (fun a =>
+      isFirewalled (wrapped [[Gen.ircCallbackFirewalled, Gen.commandsFirewalled]] [] row.2.2) a)) = true := by
+  decide
+
 /-- **`Irc.feedMsg` returns** whatever `IrcState.addMsg`, every `inFilter` and every callback do
 (even `BaseException`s are stopped by the bare `except`s there), provided what is raised before and
 inside the Irc's own handler is an `Exception`. -/
